@@ -58,8 +58,9 @@ def contexts(call, shadow_names):
     out.append(("via callback", "([0] via (q9 => %s))[0]" % call))
     out.append(("map callback", "map([0], q9 => %s)[0]" % call))
     out.append(("reduce callback", "reduce([0], (acc9, q9) => %s, 0)" % call))
-    out.append(("where callback", "([%s] where (q9 => %s .== %s))[0]" % (call, call, call)))
-    out.append(("sort_by callback", "do {\n  tmp9 = sort_by([1], q9 => 0)\n  return %s\n}" % call))
+    # the result seen inside the callback is compared as text: a NaN result is not `.==` to itself
+    out.append(("where callback", "([%s] where (q9 => to_string(q9) == to_string(%s)))[0]" % (call, call)))
+    out.append(("sort_by callback", "do {\n  tmp9 = sort_by([1, 2], q9 => %s)\n  return %s\n}" % (call, call)))
     out.append(("into", "(0 into (q9 => %s))" % call))
     out.append(("conditional", "if true then %s else 0" % call))
     return out
